@@ -11,6 +11,7 @@ TIE: model/ExportEffects.v `effect` (cmd 1401) against the modelled fields of th
  against what the ARXML / FIBEX / KCD bytes actually contain (port references, frame names, producers/consumers); `sym_emit`
  (cmd 1411) against the [frame] blocks parsed from the SYM bytes; isort against sorted()."""
 import collections
+import decimal
 import concurrent.futures
 import copy
 import hashlib
@@ -33,7 +34,9 @@ LEVEL_NOTE = ("PARTIAL BY DESIGN. Proved: for the matrix fields a writer was see
               "The model is of the code WITH fixes/C14_{arxml,fibex,kcd}_copy.patch and C14_sym_sorted.patch; the tree before them is "
               "Histories that interleave exports with arbitrary in-place edits are covered by export_after_edits_equals_fresh - in the model the writers "
               "have no state besides the matrix; that the real writers keep none across calls (module-level caches) is RUN by the export/edit/export "
-              "probe, not proved. The unfixed tree is "
+              "probe, not proved; likewise that an export leaves no process-wide state behind (thread decimal context, module globals) is only run. "
+              "kcd.dump: since /repo b679340 CanCluster keeps its merged view in objects of its own, the model's KCD view is the member matrix and "
+              "cluster_view (tied to CanCluster.frames/.signals, cmd 1404) is a separate function. The unfixed tree (arxml, fibex, sym) is "
               "kept in the same file (copies=false / sym_emit_in_order) and the four findings are theorems `_refuted` with `_partial` "
               "envelopes. NOT proved, only run: that the other fields stay untouched - attribute DEFINITIONS (definition, type, default, min, max, "
               "values), attributes, value tables and the ORDER of every list and dict are covered by the deep snapshot before/after only, the model's "
@@ -233,6 +236,12 @@ def eval_case__(arg):
         cnt["feature-has-defines"] += 1
     if nodd:
         cnt["feature-defines-of-unknown-type"] += 1
+    allsig = [s_ for f in db.frames for s_ in f.signals]
+    for flag, nm in ((any(s_.is_float and s_.initial_value != 0 for s_ in allsig), "float-signal-with-nonzero-start-value"),
+                     (any(s_.size == 64 and not s_.is_float for s_ in allsig), "64-bit-integer-signal"),
+                     (any(len(str(abs(int(s_.initial_value)))) >= 18 for s_ in allsig if s_.initial_value == s_.initial_value), "start-value-of-18+-digits")):
+        if flag:
+            cnt["feature-" + nm] += 1
     if info.get("shuffled"):
         cnt["feature-orders-shuffled"] += 1
     if any(any(s.is_multiplexer for s in f.signals) and not f.signals[0].is_multiplexer for f in db.frames):
@@ -241,12 +250,47 @@ def eval_case__(arg):
                    profile=info["profile"], frames=fields0 if len(json.dumps(fields0)) < 3000 else "(large; rebuild from case)",
                    features={k: v for k, v in info.items() if k not in ("features", "idx", "base_seed")})
     state0 = K.state(db, base_seed, idx)
+    ctx_blamed = set()
+
+    def ctx_key():
+        c_ = decimal.getcontext()
+        return (c_.prec, c_.rounding, c_.Emin, c_.Emax, c_.capitals, c_.clamp, tuple(sorted(str(k_) for k_, v_ in c_.traps.items() if v_)))
+
+    def xp(obj, w_, tmp_=None):
+        """export with the arithmetic context guarded: a writer that leaves it changed is reported (once per case) and the context is put
+        back, so that what follows in this worker judges its own exports and not the leftovers of an earlier one"""
+        k0 = ctx_key()
+        r_ = K.try_export(F, obj, w_, tmp)
+        if ctx_key() != k0:
+            if w_ not in ctx_blamed:
+                ctx_blamed.add(w_)
+                res["violations"].append(dict(key="%s-changes-process-state" % w_, what="%s export changed the thread's decimal context" % w_,
+                                              input=dict(summary, writer=w_), expected=str(k0), observed=str(ctx_key())))
+            decimal.setcontext(_G["decimal_context0"].copy())
+        return r_
     fresh = K.copier(db, base_seed, idx, C)
     alone, after_fields, rejected = {}, {}, {}
     # ---- (a) one export on a fresh copy: state before == state after ----
     for w in K.WRITER_KEYS:
         d = fresh()
+        amb0 = K.ambient_state()
         r = K.try_export(F, d, w, tmp)
+        # the export leaves no trace in the PROCESS either: arithmetic context, locale, environment, module-level tables ... are as before,
+        # and a freshly built reference matrix still decodes, scales and exports exactly as it did before anything was exported
+        amb1 = K.ambient_state()
+        cnt["process-state-probes"] += 1
+        if amb1 != amb0:
+            res["violations"].append(dict(key="%s-changes-process-state" % w, what="%s export changed process-wide state" % w,
+                                          input=dict(summary, writer=w), expected="process state after == before",
+                                          observed=[dict(path=p_, before=a_, after=b_) for p_, a_, b_ in matgen.diff(amb0, amb1)[:6]]))
+        probe = K.behaviour_probe(C, F)
+        cnt["fresh-reference-matrix-probes"] += 1
+        if probe != _G["probe0"]:
+            res["violations"].append(dict(key="%s-changes-behaviour-of-other-matrices" % w, what="after a %s export a freshly built reference matrix "
+                                          "decodes / scales / exports differently than in a process that exported nothing" % w,
+                                          input=dict(summary, writer=w, reference="harness/c14_cases.reference_matrix"), expected=_G["probe0"], observed=probe))
+        if amb1 != amb0 or probe != _G["probe0"]:
+            decimal.setcontext(_G["decimal_context0"].copy())      # so that the following probes of this worker judge their own export
         if r[0] != "ok":
             rejected[w] = r[1]
             cnt["rejected-%s" % w] += 1
@@ -282,8 +326,8 @@ def eval_case__(arg):
     for a in alone:
         for b in ([a] + prng.sample([w_ for w_ in alone if w_ != a], min(3, len(alone) - 1)) if big else alone):
             d = fresh()
-            ra = K.try_export(F, d, a, tmp)
-            rb = K.try_export(F, d, b, tmp)
+            ra = xp(d, a, tmp)
+            rb = xp(d, b, tmp)
             res["pairs"] += 1
             if ra != ("ok", alone[a]):
                 res["violations"].append(dict(key="%s-not-repeatable" % a, what="%s: same matrix, same process, different bytes" % a,
@@ -304,7 +348,7 @@ def eval_case__(arg):
         last = None
         culprit = None      # the first export of the history after which the object differs
         for w in hist:
-            last = K.try_export(F, d, w, tmp)
+            last = xp(d, w, tmp)
             if culprit is None and K.state(d, base_seed, idx) != state0:
                 culprit = w
         hist_fields = K.modelled_fields(d)
@@ -334,14 +378,14 @@ def eval_case__(arg):
             if b not in ref:
                 x = fresh()
                 K.apply_edits(x, script, C)
-                ref[b] = K.try_export(F, x, b, tmp)
+                ref[b] = xp(x, b, tmp)
             return ref[b]
         cnt["edit-histories (export, edit in place, export)"] += len(alone)
         for k_ in kinds:
             cnt["edit-" + k_] += 1
         for a in alone:
             d = fresh()
-            K.try_export(F, d, a, tmp)
+            xp(d, a, tmp)
             K.apply_edits(d, script, C)
             einput = dict(summary, first_export=a, edits=script)
             st = K.state(d, base_seed, idx)
@@ -354,7 +398,7 @@ def eval_case__(arg):
             for b in seconds:
                 if reference(b)[0] != "ok":
                     continue
-                rb = K.try_export(F, d, b, tmp)
+                rb = xp(d, b, tmp)
                 res["pairs"] += 1
                 if rb != ref[b]:
                     obs = rb[1] if rb[0] != "ok" else first_diff(ref[b][1], rb[1])
@@ -380,6 +424,25 @@ def eval_case__(arg):
         exp = encode_matrix(after_fields[w], ecu, sig)
         res["ties"].append(("effect", core.fmt_case(1401, [[WCODE[w], flag(w)]] + enc0), exp, dict(idx=idx, writer=w, copies=flag(w))))
     rev = {v: k for k, v in ecu.items()}
+    # CanCluster - the cluster-wide view kcd.dump and arxml.load build: the member matrix stays as it was (search), and
+    # cluster.frames / cluster.signals are the model's cluster_view (tie, cmd 1404)
+    import canmatrix.cancluster as CC
+    d = fresh()
+    try:
+        cl = CC.CanCluster({K.BUS: d})
+        cview = dict(frames=[[f.name, list(f.transmitters), list(f.receivers)] for f in cl.frames],
+                     signals=[[s_.name, list(s_.receivers)] for s_ in cl.signals])
+    except Exception as e:
+        cview = None
+        cnt["cancluster-rejected (%s)" % type(e).__name__] += 1
+    if cview is not None:
+        cnt["cancluster-views"] += 1
+        if K.state(d, base_seed, idx) != state0:
+            res["violations"].append(dict(key="cancluster-changes-member-matrix", what="building a CanCluster over the matrix changed the matrix",
+                                          input=summary, expected="member matrix unchanged",
+                                          observed=[dict(path=p_, before=a_, after=b_) for p_, a_, b_ in matgen.diff(state0, K.state(d, base_seed, idx))[:4]]))
+        res["ties"].append(("cluster", core.fmt_case(1404, [[]] + enc0), None,
+                            dict(idx=idx, got=cview, rev=dict(rev), sig={v: k for k, v in sig.items()})))
     # view / SYM ties: generated and corpus matrices only (reader-made matrices carry PDUs, Sendable/Receivable sections ... that the
     # small parsers below do not know; their export EFFECT is tied above like everyone's)
     for w in ("arxml", "fibex", "kcd"):
@@ -467,12 +530,15 @@ def run(chk):
     chk.rule = ("%d seeded matrices (profiles plain / rich / duplicate frame names / unpropagated receivers / both / many mux groups / all, "
                 "plus long names, free signals, cycle times, equal signal names in two frames; in 3 of 4 matrices every ordered container - frames, ecus, "
                 "signals of a frame incl. the position of the multiplexer, transmitters, receivers, attribute/define/value-table insertion order, signal "
-                "groups - is randomly permuted; every second matrix carries attribute definitions of kinds DBC does not know - BOOL, STR, empty, "
+                "groups - is randomly permuted; two of three matrices get frames with values at the edge of their types - 64 bit integers with 18-20 digit "
+                "start values, float signals with non-zero or non-terminating start values, 18-digit factors; every second matrix carries attribute definitions of kinds DBC does not know - BOOL, STR, empty, "
                 "lower-case, oddly quoted ENUMs - in all four categories) + %d hand-made corpus matrices + the shipped sample files under tests/files "
                 "as read by their readers + generated matrices written and read back through dbc/dbf/sym/kcd/json/arxml/xls; per matrix: 13 "
                 "writers alone, one random export history, one export / in-place edit script (3-7 of 25 kinds of edits through the public API: names, ids, "
                 "cycle times, attributes, define defaults, signals and frames added or deleted ...) / export history per first writer compared with an "
-                "equally edited never-exported matrix, "
+                "equally edited never-exported matrix, around every single export a comparison of process-wide state (decimal context, locale, cwd, "
+                "environment, interpreter limits, plain-data globals of all canmatrix modules) and a probe that a freshly built reference matrix with "
+                "edge values still decodes / scales / exports as in a process that exported nothing, "
                 "all ordered pairs of the writers that accept it, %d PYTHONHASHSEED values in separate processes. One evaluation "
                 "= one (matrix, first writer, second writer) triple or one (matrix, writer, hash seed) export; non-trivial = the matrix has "
                 "duplicate frame or signal names, unpropagated receivers, a multiplexed frame, or comes from a reader" % (ncases, K.N_CORPUS, len(hashseeds)))
@@ -500,6 +566,9 @@ def run(chk):
     _G["unfixed_writers"] = unfixed
     chk.extra["model_compared"] = {w: ("unfixed code (known finding recorded)" if w in unfixed else "code with the C14 fix") for w in ("arxml", "fibex", "kcd", "sym")}
     _G["thorough"] = thorough
+    import canmatrix.formats as F0
+    _G["decimal_context0"] = decimal.getcontext().copy()
+    _G["probe0"] = K.behaviour_probe(cm_.canmatrix, F0)      # taken before this process exported anything
     _G["tmp_parent"] = tempfile.mkdtemp(prefix="c14_", dir="/tmp")       # xls goes through real files; removed below
     ctx = multiprocessing.get_context("fork")
     nworkers = max(2, core.NPROC - 2)
@@ -645,7 +714,12 @@ def run(chk):
     for (kind, inf), exp, o in zip(meta, expect, out):
         got = core.parse_out(o)
         ncmp[kind] += 1
-        if kind == "view":
+        if kind == "cluster":
+            mism = compare_cluster(inf, got)
+            if mism:
+                bad[kind] += 1
+                chk.tie_break("cluster-view", dict(idx=inf["idx"]), mism[0], mism[1])
+        elif kind == "view":
             mism = compare_view(inf, got)
             if mism:
                 bad[kind] += 1
@@ -657,9 +731,9 @@ def run(chk):
             elif got != exp:
                 bad[kind] += 1
                 chk.tie_break(kind, inf, got, exp)
-    chk.ties["correspondence"] = {"suite": "effect (1401), view from ARXML/FIBEX/KCD bytes (1402), export histories (1403), SYM blocks (1411), isort (1413)",
+    chk.ties["correspondence"] = {"suite": "effect (1401), view from ARXML/FIBEX/KCD bytes (1402), export histories (1403), CanCluster view (1404), SYM blocks (1411), isort (1413)",
                                   "cases": dict(ncmp), "disagreements": dict(bad)}
-    cand = [i for i, (k, _) in enumerate(meta) if k != "view" and len(lines[i]) < 1500]
+    cand = [i for i, (k, _) in enumerate(meta) if k not in ("view", "cluster") and len(lines[i]) < 1500]
     pick = rng.sample(cand, min(240, len(cand)))
     shard_cases = []
     for i in pick:
@@ -688,6 +762,25 @@ def decode_matrix(groups):
         fr.append(dict(name=name, tx=tx, rx=rx, sigs=sigs))
         i += 3 + n
     return fr
+
+
+def compare_cluster(inf, got):
+    """model's cluster_view (first frame / signal of every name carries the merged lists) vs CanCluster.frames / .signals"""
+    m = decode_matrix(got)
+    rev, sigrev = inf["rev"], inf["sig"]
+    frames, seen = [], set()
+    for f in m:
+        if f["name"] not in seen:
+            seen.add(f["name"])
+            frames.append([f["name"], [rev[x] for x in f["tx"]], [rev[x] for x in f["rx"]]])
+    signals, seen = [], set()
+    for f in m:
+        for sn, rc in f["sigs"]:
+            if sn not in seen:
+                seen.add(sn)
+                signals.append([sigrev[sn], [rev[x] for x in rc]])
+    model = dict(frames=frames, signals=signals)
+    return None if model == inf["got"] else (model, inf["got"])
 
 
 def compare_view(inf, got):
